@@ -81,6 +81,11 @@ func snap(v reflect.Value, depth int) any {
 		if t == tReader {
 			return readAll(e.Interface().(io.Reader))
 		}
+		// the dynamic type of struct implementers is kept in SStruct.Type; wrap only other kinds
+		k := e.Kind()
+		if k == reflect.Struct || (k == reflect.Pointer && e.Type().Elem().Kind() == reflect.Struct) {
+			return snap(e, depth+1)
+		}
 		return &SIface{Type: e.Type().String(), Value: snap(e, depth+1)}
 	case reflect.Pointer:
 		if v.IsNil() {
@@ -219,11 +224,13 @@ func timeEq(s, g time.Time) bool {
 	}
 	// time-of-day projection (date part zero)
 	gu := g.UTC()
-	if gu.Year() <= 1 && gu.Hour() == su.Hour() && gu.Minute() == su.Minute() && gu.Second() == su.Second() {
-		return true
+	for _, c := range []time.Time{su, s} { // clock reading in UTC or in the value's own zone
+		if gu.Year() <= 1 && gu.Hour() == c.Hour() && gu.Minute() == c.Minute() && (gu.Second() == c.Second() || gu.Second() == 0) {
+			return true
+		}
 	}
 	// whole-second / milli / micro projections of a sub-second instant
-	for _, d := range []time.Duration{time.Second, time.Millisecond, time.Microsecond} {
+	for _, d := range []time.Duration{time.Second, time.Millisecond, time.Microsecond, time.Minute} {
 		if g.Equal(s.Truncate(d)) {
 			return true
 		}
@@ -294,6 +301,13 @@ func diff(path string, s, g any, o *DiffOptions) string {
 				return ""
 			}
 			return fmt.Sprintf("%s: sent %s, got %s", path, descr(s), descr(g))
+		}
+		if o.SliceLenient && len(sv)+len(gv) == 1 {
+			// the style table cannot tell an empty array from [""] (nor from an absent parameter)
+			one := append(append([]any{}, sv...), gv...)
+			if str, ok := one[0].(string); ok && str == "" {
+				return ""
+			}
 		}
 		if len(sv) != len(gv) {
 			return fmt.Sprintf("%s: sent %d items %s, got %d items %s", path, len(sv), descr(s), len(gv), descr(g))
